@@ -33,6 +33,9 @@ func genScenario(r *rand.Rand, withClone bool) string {
 	if withClone && r.Intn(4) == 0 {
 		return genCloneSplice(r)
 	}
+	if !withClone && r.Intn(4) == 0 {
+		return genLive(r)
+	}
 	tmo := []int{0, 0, 2}[r.Intn(3)]
 	acts := []string{fmt.Sprintf("ps %d %d", tmo, r.Intn(2))}
 	nextChan, nextVal, nextPub, nextUnsub, nextAll, nextClone := 0, 1, 0, 0, 0, 1
@@ -157,6 +160,68 @@ func genCloneSplice(r *rand.Rand) string {
 	return strings.Join(acts, ";")
 }
 
+// genLive: every subscriber is received from without limit, no timeout, no clones: nothing can block for good, so every call must
+// return and every event (of the asynchronous variants too) must reach every subscriber that stays subscribed. Publishes of all six
+// variants race Sub / Unsub (also of unknown channels) on the root.
+func genLive(r *rand.Rand) string {
+	acts := []string{"ps 0 " + strconv.Itoa(r.Intn(2)), "live"}
+	nextChan, nextVal, nextPub, nextUnsub := 0, 1, 0, 0
+	var live []int
+	sub := func() {
+		acts = append(acts, fmt.Sprintf("sub %d %d", nextChan, []int{-1, 0, 1, 2}[r.Intn(4)]))
+		live = append(live, nextChan)
+		nextChan++
+	}
+	for i, n := 0, 2+r.Intn(2); i < n; i++ {
+		sub()
+	}
+	acts = append(acts, "wait")
+	for i, n := 0, 4+r.Intn(6); i < n; i++ {
+		switch k := r.Intn(10); {
+		case k < 6:
+			variant := []string{"pub", "pubslice", "pubwait", "pubslicewait", "pubsync", "pubslicesync"}[r.Intn(6)]
+			nev := 1
+			if strings.Contains(variant, "slice") {
+				nev = 1 + r.Intn(2)
+			}
+			var evs []string
+			for j := 0; j < nev; j++ {
+				evs = append(evs, strconv.Itoa(nextVal))
+				nextVal++
+			}
+			acts = append(acts, fmt.Sprintf("pub %d 0 %s %s", nextPub, variant, strings.Join(evs, ",")))
+			nextPub++
+		case k < 7 && len(live) > 1:
+			j := r.Intn(len(live))
+			acts = append(acts, fmt.Sprintf("unsub %d 0 %d", nextUnsub, live[j]))
+			live = append(live[:j], live[j+1:]...)
+			nextUnsub++
+		case k < 8 && len(live) > 1:
+			// an asynchronous publish and, back to back from the same goroutine, the removal of an EARLIER subscriber: the sender goroutines
+			// of the publish typically run only after the subscriber list has been spliced
+			variant := []string{"pub", "pubslice"}[r.Intn(2)]
+			acts = append(acts, "wait", fmt.Sprintf("+pub %d 0 %s %d", nextPub, variant, nextVal), fmt.Sprintf("+unsub %d 0 %d", nextUnsub, live[0]), "wait")
+			nextPub++
+			nextVal++
+			nextUnsub++
+			live = live[1:]
+		case k == 8:
+			acts = append(acts, fmt.Sprintf("mkchan %d", nextChan), fmt.Sprintf("unsub %d 0 %d", nextUnsub, nextChan))
+			nextChan++
+			nextUnsub++
+		default:
+			if len(live) < 4 {
+				sub()
+			}
+		}
+		if r.Intn(3) == 0 {
+			acts = append(acts, "wait")
+		}
+	}
+	acts = append(acts, "wait")
+	return strings.Join(acts, ";")
+}
+
 func pubsubMain(args []string) int {
 	if len(args) < 2 {
 		fmt.Fprintln(os.Stderr, "usage: harness pubsub <seed> <n> [clone|noclone|script <scenario>]")
@@ -200,7 +265,8 @@ func pubsubMain(args []string) int {
 	}
 	wg.Wait()
 	for _, j := range jobs {
-		if last := j.out[len(j.out)-1]; last == "exit deadlock" || last == "exit timeout" {
+		if last := j.out[len(j.out)-1]; (last == "exit deadlock" || last == "exit timeout") && !strings.Contains(j.spec, ";live;") {
+			// (in the `live` family nothing can legitimately block for good: a deadlock or a hang there IS a verdict and is judged)
 			// inconclusive (DESIGN Appendix C): a scenario whose calls block each other for good is not a verdict about the property
 			fmt.Fprintln(w, "# inconclusive ("+last+"): scenario "+j.spec)
 			continue
@@ -299,6 +365,7 @@ type psChild struct {
 	cready  map[int]chan struct{} // closed when clone w exists
 	pending int64                 // calls in flight
 	lastEv  int64                 // unix nanos of the last event
+	live    bool                  // scenario family `live`: every subscriber is received from without limit
 }
 
 func (p *psChild) log(format string, a ...interface{}) {
@@ -345,17 +412,23 @@ func pubsubChild(args []string) int {
 	// pre-create the coordination channels named in the script
 	for _, a := range acts {
 		f := strings.Fields(a)
+		f[0] = strings.TrimPrefix(f[0], "+")
 		switch f[0] {
 		case "sub", "mkchan":
 			c := atoi(f[1])
-			p.allow[c] = make(chan struct{}, 64)
+			p.allow[c] = make(chan struct{}, 2048)
 			p.ready[c] = make(chan struct{})
 		case "withonly":
 			p.cready[atoi(f[1])] = make(chan struct{})
 		}
 	}
 	var rxmu sync.Mutex
+	inline := false
 	spawn := func(f func()) {
+		if inline { // "+action": the call runs in the script's own goroutine, back to back with the next action
+			f()
+			return
+		}
 		atomic.AddInt64(&p.pending, 1)
 		go func() {
 			defer atomic.AddInt64(&p.pending, -1)
@@ -364,6 +437,8 @@ func pubsubChild(args []string) int {
 	}
 	for _, a := range acts {
 		f := strings.Fields(a)
+		inline = strings.HasPrefix(f[0], "+")
+		f[0] = strings.TrimPrefix(f[0], "+")
 		switch f[0] {
 		case "ps":
 			root := &chans.PubSub[int]{PubTimeoutAfter: time.Duration(atoi(f[1])) * time.Millisecond, DefaultBuffer: atoi(f[2])}
@@ -374,6 +449,9 @@ func pubsubChild(args []string) int {
 			p.wmu.Lock()
 			os.Stdout.WriteString("0 " + a + "\n")
 			p.wmu.Unlock()
+		case "live":
+			p.live = true
+			p.log("live")
 		case "sub":
 			c, capa := atoi(f[1]), atoi(f[2])
 			spawn(func() {
@@ -389,6 +467,12 @@ func pubsubChild(args []string) int {
 				rxmu.Unlock()
 				go p.receiver(c, ch)
 				p.log("subret %d", c)
+				if p.live { // this subscriber is received from without limit
+					p.log("allow %d %d", c, 1000)
+					for i := 0; i < 1000; i++ {
+						p.allow[c] <- struct{}{}
+					}
+				}
 				close(p.ready[c])
 			})
 		case "mkchan":
@@ -498,7 +582,7 @@ func pubsubChild(args []string) int {
 			}
 			p.settle(20 * time.Millisecond)
 		}
-		if r.Intn(3) > 0 {
+		if !inline && r.Intn(3) > 0 {
 			time.Sleep(time.Duration(r.Intn(400)) * time.Microsecond)
 		}
 	}
